@@ -19,7 +19,7 @@ use crate::writer::*;
 use std::fmt::Write as _;
 use std::panic::{catch_unwind, AssertUnwindSafe};
 
-pub const ROUTES: &[&str] = &[R1, R2, R3, R4, R4I, R4J, R4K, R5, R6];
+pub const ROUTES: &[&str] = &[R1, R2, R3, R4, R4I, R4J, R4K, R4V, R5, R6];
 pub const NAMES: &[&str] = ROUTES;
 const MAX_CALLBACKS: u32 = 160;
 
@@ -560,7 +560,8 @@ pub fn enumerate_faults(text: &str, root: &toml_edit::Item, single: Option<Fault
                 check_rendering(text, &e, out, route);
             } else {
                 // clause 5: no source text -> no span, key path in the message
-                if e.span.is_some() {
+                // (a value cloned out of a parsed document — R4v — legitimately keeps spans without text)
+                if e.span.is_some() && *route != R4V {
                     out.violate("C15/5", format!("C15/stale-span/route={route}"), format!("{route} has no source text but the error carries span {:?}\n--- text ---\n{text}", e.span));
                 }
                 if attributable {
